@@ -50,6 +50,13 @@ def address_from_pubkey(pk):
     return (1, b_dec(data + cs, B58))
 
 
+def standard_address_as_type3_wire(addr):
+    """wire bytes `03 len base59(text)` of a STANDARD address: accepted by the C++ (the type is derived from the text)"""
+    text = b_enc(addr[1], B58)
+    b = b_dec(text, B59)
+    return bytes([3, len(b)]) + b
+
+
 def multisig_address(r):
     n = r.range(2, 58)
     m = r.range(1, n)
